@@ -442,7 +442,11 @@ class EngineRun:
                 self._reorder_created()
             elif op == 'FNF':
                 self.mark('FNF:%s' % tstr(s['data']))
-                self.oneway.append(('fnf', len(self.glog), ep.fire_and_forget(P(s['data']))))
+                fut = ep.fire_and_forget(P(s['data']))
+                fsid = ep._stream_control._current_stream_id
+                # the library's own done-callback (finish_stream of that id) was registered first and runs just before this one
+                fut.add_done_callback(lambda _f, _sid=fsid: self.mark('FNFD:%d' % _sid))
+                self.oneway.append(('fnf', len(self.glog), fut))
             elif op == 'MP':
                 self.mark('MP:%s' % tstr(s['data']))
                 self.oneway.append(('mp', len(self.glog), ep.metadata_push(tags_to_bytes(s['data']))))
